@@ -13,6 +13,10 @@ CMD_DOC = {
     201: "library Decode projected on the RFC parse (accept flag, method, class, length, tid, (type,value) list) vs the Coq Spec parser rfc_parse",
     202: "Get / Contains / ForEach (callback failing at its k-th call) on the decoded message",
     301: "history of building operations (start state, then Build/WriteHeader/Encode/Add/SetType/tid setter/typed, integrity, fingerprint setters/WriteAttributes/Reset/Decode): status, refusal reason, len(Raw) and a digest of the whole projected state after every step; full state at the end",
+    601: "round trip: Build(type, tid, typed setter), decode the raw bytes into a fresh message, read the attribute back with the typed getter",
+    602: "value bytes written by the library's setter vs the Spec's RFC section-15 encoder",
+    603: "value read by the library's getter vs the Spec's RFC section-15 decoder (input produced by a third, independent Go encoder)",
+    701: "typed getter / checker on a decoded message in a buffer with given spare capacity: result and message state afterwards",
     1801: "pooled HMAC history (acquire(key)/write/sum/reset/put on a recycled object): every Sum result",
     1901: "MessageType.Value on one (method, class)",
     1902: "MessageType.ReadValue on one value",
@@ -55,6 +59,25 @@ PROPS = {
         "rule": "random histories (1..15 operations) of building operations over {Build(0..5 setters), WriteHeader, Encode, Add(any type, value length 0..3000 incl. every residue mod 4), SetType(method 0..0xFFF, 4 classes), transaction-ID setter, every typed setter, MESSAGE-INTEGRITY (key 0..200 bytes), FINGERPRINT} from 5 kinds of start (new(Message), New(), decoded message, decoded message with trailing bytes, poisoned re-used buffer), plus EXHAUSTIVELY all histories of <= 3 operations over a 14-operation alphabet (value lengths 0..5) from 3 start states; after every step the whole projected state is compared with the model (digest) and the implementation's state is checked by the Go oracle wellFormed (cookie, header length, multiple of 4, zero padding, struct = TLV walk, re-decode equality, Equal). non-trivial = every history; distinct by literal case line",
         "explanation": "theorems: Build from ANY previous state is canonical (C03_build_canonical), each building setter preserves canonical and is refined by the Impl-model, canonical messages decode to themselves, decode-then-encode is canonical; three refutations with vm_compute witnesses (0x8020 alias, Equal nil-vs-empty on the pinned tree, decoder tolerances surviving in Raw)",
         "assumptions": ["slice model as in C01", "MI uses the model's SHA-1/HMAC (validated against Go by C18/C04)", "attribute views are snapshots (value semantics): sound for the listed operations because every attribute is rewritten in place at its own offset (DESIGN §4 C03)"],
+    },
+    "C06": {
+        "level": "proof",
+        "pinned": [601, 602, 603],
+        "coq_sample": 40,
+        "coq_sample_maxlen": 2500,
+        "rule": "ALL ports 0..65535 (Spec encoder vs library bytes; every 16th also through Build/Decode/getter), IPv4 / IPv6 / IPv4-mapped / zero-prefixed addresses, random 96-bit transaction IDs, every AddToAs type used by pion/turn (XOR-PEER/RELAYED) and the four mapped-address attributes, text lengths 0..limit+1 for USERNAME/REALM/NONCE/SOFTWARE, all codes 300..699 with reasons up to 763 bytes, UNKNOWN-ATTRIBUTES lists of 0..64 types; library-written bytes vs the Coq Spec encoder (602), Spec/third-encoder values read by the library vs the Coq Spec decoder (603). non-trivial = every case; distinct by literal case line",
+        "explanation": "theorems: value-level round trips (reader(writer(v)) = v) and equality of the Impl-model's bytes with the independent RFC section-15 Spec",
+        "assumptions": ["slice model as C01; xor.XorBytes as element-wise xor over the shorter length"],
+    },
+    "C07": {
+        "level": "proof",
+        "pinned": [701],
+        "tagsets": [["verif"], ["verif", "debug"]],
+        "coq_sample": 80,
+        "coq_sample_maxlen": 1500,
+        "rule": "every getter/checker x every attribute type it serves x EVERY value length 0..40 (random content, plausible family bytes) x position first/middle/last x capacity exact / +1..+64 (00/ff/random) and the 1..4-byte tails a short value could over-read; twins differing only in spare bytes, padding content and neighbouring values must agree INCLUDING error text (implementation vs itself); message state digest before/after; signed/fingerprinted real messages (valid and bit-flipped) with trailing attributes; release and debug tags. non-trivial = every case; distinct by literal case line",
+        "explanation": "theorems: every reader is total (never Panic) and local (depends only on the value's own bytes and the transaction ID); checks leave the message as they found it; the pinned XOR reader is refuted with witnesses",
+        "assumptions": ["slice model as C01"],
     },
     "C08": {
         "level": "proof",
